@@ -131,7 +131,7 @@ pub fn thresholds(seed: u64, thorough: bool) -> Vec<BuildSpec> {
             let cap = capacity(mode, 2, v);
             for (i, n) in [cap.saturating_sub(1), cap, cap + 1].into_iter().enumerate() {
                 let forced_mode = (v + i) % 2 == 1;
-                let mut s = spec(payload(&mut r, mode, n, !forced_mode), None, if forced_mode { Some(mode) } else { None }, if i == 1 && v % 3 == 0 { Some(v) } else { None }, None, format!("thrdefault:{mode}:{v}:{i}"));
+                let mut s = spec(payload(&mut r, mode, n, !forced_mode), None, if forced_mode { Some(mode) } else { None }, if (i == 1 && v % 3 == 0) || (i == 2 && v % 3 != 0) || (i == 0 && v % 3 == 2) { Some(v) } else { None }, None, format!("thrdefault:{mode}:{v}:{i}"));
                 s.lite = !(v <= 4 || (thorough && v % 8 == 0));
                 out.push(s);
             }
@@ -210,8 +210,8 @@ pub fn modes(seed: u64, thorough: bool) -> Vec<BuildSpec> {
         }
     }
     // long strings, one odd byte at a random position (or none)
-    for i in 0..(if thorough { 400 } else { 60 }) {
-        let base = i % 2;
+    for i in 0..(if thorough { 400 } else { 80 }) {
+        let base = (i / 4) % 2;
         let n = r.gen_range(20..600);
         let mut p = payload(&mut r, base, n, false);
         match i % 4 {
